@@ -244,7 +244,7 @@ func (V6) Name() string    { return "nclient6" }
 func (V6) AcceptType() int { return int(dhcpv6.MessageTypeReply) }
 func (V6) OtherType() int  { return int(dhcpv6.MessageTypeAdvertise) }
 func (V6) Classes() []string {
-	return []string{"matching", "other-type", "wrong-xid", "relay-typed", "undecodable", "empty"}
+	return []string{"matching", "other-type", "wrong-xid", "relay-typed", "relay-wrapped", "undecodable", "empty"}
 }
 func (V6) SetHook(h func(string)) { setHook6(h) }
 
@@ -299,6 +299,18 @@ func (V6) Datagram(class string, xid uint32, nonce int, msgType int) []byte {
 		b := make([]byte, 34)
 		b[0] = 13
 		return append(b, 0, 9, 0, byte(len(m.ToBytes())))[:34]
+	case "relay-wrapped":
+		// a well-formed Relay-reply (nested once or twice) whose innermost message is the matching reply: relay
+		// messages are exchanged between relay agents and servers; a client never gets one, and what it carries did
+		// not arrive as a datagram for the client
+		b := m.ToBytes()
+		for k := 0; k <= nonce%2; k++ {
+			h := make([]byte, 34)
+			h[0], h[1] = 13, byte(k)
+			h[17], h[33] = 1, 2
+			b = append(append(h, 0, 9, byte(len(b)>>8), byte(len(b))), b...)
+		}
+		return b
 	case "undecodable":
 		b := m.ToBytes()
 		return b[:len(b)-2]
